@@ -422,6 +422,55 @@ def single_expansion(ctx, rep, clause):
                f'max_mods new sites and duplicate forms are returned (N-terminal + C-terminal + residue rules together)',
                f.loc(n), clause)
     rep.floor('SIB-expand', 'calls of the variable builder in apply_variable_mods', k, 3)
+    # a terminal form is expanded only when the terminal rule changed something: the form made from BASE by
+    # apply_static_mods is compared with BASE itself (a test that the form *has* a terminal modification is also true
+    # for a terminus that was already modified and left alone -- the unchanged form would be expanded a second time)
+    from ..guards import dominating_tests
+    j = 0
+    for n in walk_own(f.node):
+        if not (isinstance(n, ast.Call) and isinstance(n.func, ast.Name) and n.func.id == builder and n.args and
+                isinstance(n.args[0], ast.Name)):
+            continue
+        x = n.args[0].id
+        # the chain of plain copies the argument came through (`form = made if made != base else None`), down to the
+        # call of apply_static_mods that made it
+        names, anchors, src = [x], [n], None
+        cur = x
+        for _ in range(3):
+            binds = [a for a in walk_own(f.node) if isinstance(a, ast.Assign) and isinstance(a.targets[0], ast.Name)
+                     and a.targets[0].id == cur and a.order < n.order and
+                     not (isinstance(a.value, ast.Constant) and a.value.value is None)]
+            if not binds:
+                break
+            last = max(binds, key=lambda a: a.order)
+            anchors.append(last)
+            if isinstance(last.value, ast.Call) and norm_stmt(last.value.func) == 'apply_static_mods' and last.value.args:
+                src = last.value
+                break
+            if isinstance(last.value, ast.Name):
+                cur = last.value.id
+                names.append(cur)
+                continue
+            break
+        if src is None:
+            continue
+        base = norm_stmt(src.args[0])
+        j += 1
+        tests = [tp for a_ in anchors for tp in dominating_tests(f.node, a_)]
+        cmp_ok = False
+        for t, pol in tests:
+            for y in ast.walk(t):
+                if isinstance(y, ast.Compare) and len(y.ops) == 1 and isinstance(y.ops[0], (ast.NotEq, ast.Eq)) and \
+                        base in (norm_stmt(y.left), norm_stmt(y.comparators[0])) and \
+                        ({norm_stmt(y.left), norm_stmt(y.comparators[0])} - {base}) <= set(names):
+                    cmp_ok = True
+        ob(rep, 'SIB-expand', f.fq, f'the form `{x}` made from `{base}` is expanded only if it differs from `{base}`',
+           cmp_ok, f'{x} != {base}',
+           f'`{norm_stmt(n)[:70]}` is not guarded by a comparison of `{x}` with the annotation it was made from '
+           f'(guards: {[norm_stmt(t)[:40] for t, _p in tests][-2:]}): with a terminus that is already modified and a '
+           f'rule that leaves it alone (skip mode) the unchanged form is expanded again and every form is returned twice',
+           f.loc(n), clause)
+    rep.floor('SIB-expand', 'terminal forms guarded before expansion', j, 2)
 
 
 def check(ctx, rep):
